@@ -284,6 +284,14 @@ def check_C11(chk):
     chk.prove(["Properties_C11.v"])
     chk.cov["trusted_base"] = TRUSTED + ["axioms: see coverage.print_assumptions"]
     cases = scenarios(chk)
+    # the attribute escaping of the xml reporter translated whole from src/xml_reporter.c (concat_escaped, concat),
+    # run by the extracted CLite interpreter against Xml.escape on every byte value and on combinations; texts on
+    # which they differ become failure messages of real runs as well
+    import codetie
+    for t in codetie.string_function(chk, "xmlesc", codetie.xmlesc_inputs(chk), "escaped() of the xml reporter")[:12]:
+        if t and 0 not in t and len(t) < 200:
+            cases.append({"label": "message %r (translated escaping differs from the model)" % t, "rep": "xml", "mode": "forked",
+                          "suites": [(0, "top", None)], "tests": [(1, "t1", 0, False, [("fail", t)]), (2, "t2", 0, False, [("pass",)])], "nofile": None})
 
     def do(case):
         text = scn(case["rep"], case["mode"], case["suites"], case["tests"], "events.log")
